@@ -291,6 +291,20 @@ func htSweep() []func(*Asset) {
 }
 
 func genHT(r *lib.Rand, h *History, i int) {
+	if j := i - len(htSweep()); j >= 0 && j < 6 { // boundary x repetition: fee / amount / limit relations at their edges, repeated swaps, blocks past every expiry
+		a := Asset{D: 10, Limit: sp("1000000000"), TL: true, Period: int64(time.Hour), TBL: sp("50000000"), Active: true, Deputy: 2,
+			Fixed: sp("1000"), Min: sp("2000"), Max: sp("100000000"), MinLock: 50, MaxLock: 34560}
+		[]func(){func() { a.Fixed = sp("0") }, func() { a.Fixed = sp("5000") }, // fixed fee above the minimum: amounts in [min, fixed)
+			func() { a.Min = sp("3000"); a.Max = sp("3000") }, func() { a.TBL = sp("1000000000") },
+			func() { a.Limit = sp("5000"); a.TBL = sp("5000") }, func() { a.Fixed = sp("100000000"); a.Min = sp("1") }}[j]()
+		h.HT = []Asset{a}
+		h.Via = sweepVia(j)
+		h.Steps = []Step{{"block", []string{"1"}}, {"create", []string{"10", "3000", "2", "1", "50"}}, {"create", []string{"10", "3000", "2", "1", "50"}}, {"claim", nil},
+			{"create", []string{"10", "3000", "1", "2", "50"}}, {"create", []string{"10", "2000", "1", "2", "50"}}, {"create", []string{"10", "2999", "1", "2", "51"}},
+			{"create", []string{"10", "6000", "1", "2", "50"}}, {"claim", nil}, {"block", []string{"2"}}, {"create", []string{"10", "3000", "2", "1", "50"}},
+			{"block", []string{"56"}}}
+		return
+	}
 	if sw := htSweep(); i < len(sw) {
 		a := Asset{D: 10, Limit: sp("1000000000"), TL: i%2 == 0, Period: int64(time.Hour), TBL: sp("50000000"), Active: true, Deputy: 2,
 			Fixed: sp("1000"), Min: sp("2000"), Max: sp("100000000"), MinLock: 50, MaxLock: 34560}
